@@ -632,6 +632,16 @@ def edges(rng, case, idx):
                 got = res[1].contents.get(oligo, 0.0)
                 if abs(got - want) > 0.02 * want + 4 * cf.q:
                     viol(['C12', 'C03'], 'C12:extreme_dilution_does_not_hold_the_stated_concentration', {'stock': [stock_c, stock_v], 'target': target, 'total': total, 'solute_stored': got, 'expected_stored': want})
+            M.bucket(case['prop'] + '/edge/E22_a_trillion_fold_dilution')
+            molar = C.create_solution(salt, water, concentration='1 M', total_quantity='1 L')
+            for target, tot in (('1 pM', '1 kL'), ('1 pM', '100 L'), ('10 pM', '1 kL'), ('0.001 nM', '1000 L')):
+                res, exc = attempt(lambda: C.create_solution_from(molar, salt, target, water, tot))
+                if exc is None:
+                    got = R.concentration(res[1].contents, salt, 'mol', 'L')
+                    want = R.parse_concentration(target)[0]
+                    stored_res = cf.q * cf.mol_prefix / max(R.measure(res[1].contents, 'L'), 1e-300)
+                    if abs(got - want) > 2e-6 * want + 2 * stored_res:
+                        viol(['C12', 'C14', 'C03'], 'C12:extreme_dilution_does_not_hold_the_stated_concentration:trillion_fold', {'target': target, 'total': tot, 'got_mol_per_L': got})
             M.bucket(case['prop'] + '/edge/E22_total_at_the_stocks_own_concentration')
             for conc, tot in (('1 ng/L', '50 mL'), ('3 ng/L', '20 mL'), ('1 ug/L', '50 mL'), ('10 ng/L', '10 mL')):
                 stock, exc = attempt(lambda: C.create_solution(oligo, water, concentration=conc, total_quantity='1 L'))
@@ -938,6 +948,22 @@ def edges(rng, case, idx):
                 a_, ea = attempt(lambda: r.get_substance_used(dye, 'all', 'nmol', destinations=[p1, p2, waste]))
                 if ef is None and es is None and ea is None and abs(f_ + s_ - a_) > 1.0:
                     viol(['C09'], 'C09:stages_do_not_add_up_to_the_whole_recipe', {'fill': f_, 'stamp': s_, 'all': a_})
+            M.bucket(case['prop'] + '/edge/E29_remove_from_a_large_plate_that_is_a_destination')
+            big = C('stock', '10 L', [(water, '5 L')])
+            for (rows_, cols_), per_well in (((16, 24), rng.choice(['5 uL', '50 uL', '13 uL', '25 uL'])), ((8, 12), rng.choice(['5 uL', '3.8 uL']))):
+                plate_ = pp.Plate('plate', '500 uL', rows=rows_, columns=cols_)
+                r = pp.Recipe().uses(big, plate_)
+                r.start_stage('dispense')
+                r.transfer(big, plate_, per_well)
+                r.end_stage('dispense')
+                r.start_stage('dry')
+                r.remove(plate_, water)
+                r.end_stage('dry')
+                _, exc = attempt(lambda: r.bake())
+                if exc is None:
+                    res, exc = attempt(lambda: r.get_substance_used(water, 'dry', 'umol', destinations=[plate_]))
+                    if exc is not None or abs(res) > 1e-3:
+                        viol(['C09', 'C17'], 'C09:net_change_of_zero_refused_as_a_decrease:remove:large_plate', {'plate': [rows_, cols_], 'per_well': per_well, 'answer': res, 'exc': repr(exc)[:120]})
             M.bucket(case['prop'] + '/edge/E29_a_loss_after_stamps_back_and_forth')
             lig = S.solid('ligand', 500.0)
             st = C('stock', '1 L', [(water, '100 mL'), (lig, '1 nmol')])        # 10 nM
@@ -1147,7 +1173,8 @@ def edges(rng, case, idx):
             if exc is not None:
                 viol(['C05', 'C03'], f'C05:feasible_request_refused:solute_stated_per_a_trace_solute:{type(exc).__name__}', {'exc': repr(exc)[:100]})
             cat_, sod_, amy3 = S.enzyme('catalase', '50000 U/mg'), S.enzyme('SOD', '4000 U/mg'), S.enzyme('amylase', '100 U/mg')
-            for concs, tot, want in ((['0.45 U/U', '0.45 U/U', '1 mg/kg'], '500 kg', 0.45), (['0.45 U/U', '0.45 U/U', '1 ng/kg'], '100 kg', 0.45), (['0.6 U/U', '0.3 U/U', '0.1 mg/g'], '100 kg', 0.6)):
+            for concs, tot, want in ((['0.45 U/U', '0.45 U/U', '1 mg/kg'], '500 kg', 0.45), (['0.45 U/U', '0.45 U/U', '1 ng/kg'], '100 kg', 0.45), (['0.6 U/U', '0.3 U/U', '0.1 mg/g'], '100 kg', 0.6),
+                                     (['0.6 U/U', '0.399 U/U', '1 ug/kg'], '500 kg', 0.6), (['0.499 U/U', '0.499 U/U', '0.1 pg/kg'], '1000 kg', 0.499), (['0.3 U/U', '0.699 U/U', '1 ug/kg'], '500 kg', 0.3)):
                 res, exc = attempt(lambda: C.create_solution([cat_, sod_, amy3], water, concentration=concs, total_quantity=tot))
                 if exc is not None:
                     viol(['C05', 'C03'], f'C05:feasible_request_refused:solute_stated_per_a_trace_solute:three_enzymes:{type(exc).__name__}', {'concentrations': concs, 'total': tot, 'exc': repr(exc)[:100]})
@@ -1219,6 +1246,14 @@ def edges(rng, case, idx):
                 res, exc = attempt(fn)
                 if exc is None and float(_np.sum(res)) > 0:
                     viol(['C10', 'C06'], f'C10:answered_in_another_dimension:{label}', {'answer': _np.asarray(res).tolist()[0]})
+            M.bucket(case['prop'] + '/edge/E32_a_malformed_quantity_for_no_wells')
+            plate0 = pp.Plate('plate', '100 uL', rows=2, columns=3)
+            for label, fn in (('transfer_into', lambda: pp.Plate.transfer(stock, plate0[[]], '5 parsecs')), ('transfer_out_of', lambda: C.transfer(plate0[[]], stock, '-3 M')),
+                              ('transfer_out_of_rectangle', lambda: C.transfer(plate0[:][0:0], stock, 'lots')), ('fill_to', lambda: plate0[[]].fill_to(water, 'lots')),
+                              ('fill_to_negative', lambda: plate0[[]].fill_to(water, '-5 uL')), ('transfer_negative', lambda: pp.Plate.transfer(stock, plate0[[]], '-1 uL'))):
+                _, exc_m = attempt(fn)
+                if exc_m is None or not isinstance(exc_m, (ValueError, TypeError)):
+                    viol(['C14', 'C03'], f'C14:malformed_quantity_accepted:{label}:no_wells', {'exc': repr(exc_m)[:100]})
             M.bucket(case['prop'] + '/edge/E32_a_rectangular_selection_of_no_wells')
             plate2 = pp.Plate('plate', '100 uL', rows=2, columns=3)
             for label, fn in (('transfer_into', lambda: pp.Plate.transfer(stock, plate2[:][0:0], '1 uL')), ('transfer_out_of', lambda: C.transfer(plate2[:][0:0], stock, '1 uL')),
